@@ -40,6 +40,9 @@ func c03Pool(thorough bool) []any {
 		&Bin{Or: false, L: m(a, OpEq, "1"), R: m(aa, OpEq, "1")},
 		&Bin{Or: true, L: m(aa, OpEq, "1"), R: m(a, OpEmpty, "")},
 	}
+	// a quantifier that binds one name to index AND value: an error only when it is reached over a non-empty collection
+	pool = append(pool, &Quant{All: false, Sel: a, Mode: BindBoth, Idx: "k", Val: "k", Body: m([]string{"b"}, OpEq, "1")},
+		&Quant{All: true, Sel: aa, Mode: BindDefault, Val: "x", Body: &Quant{All: false, Sel: []string{"x"}, Mode: BindBoth, Idx: "j", Val: "j", Body: m(a, OpEmpty, "")}})
 	// different paths with the same rendered text (see universe.go): each must keep its own value inside one expression
 	pool = append(pool, m([]string{"a", "a.a"}, OpEq, "1"), m([]string{"a", "a/a"}, OpEq, "2"), m([]string{"a", "a", "a"}, OpEq, "3"), m([]string{"a", "a", "a"}, OpEq, "1"))
 	if thorough {
